@@ -84,7 +84,7 @@ CHECKS = {
         level='model_checking', technique='explicit-state exploration of call histories over the shared grammar state (warm and cold start, snapshot state graph, census), result-pair reachability + mutation oracle, stateless preemption-bounded schedule exploration with a controlled thread scheduler, fresh-process cross-check',
         text='Every history of up to 2 calls over 39 calls (13 documents x 3 option sets) and up to 3 (quick) / 4 (thorough) over a reduced alphabet is executed from the warm and from the cold shared state; every outcome must equal the isolated outcome, earlier results must stay intact, '
              'and the census of live pydbml objects must return to the baseline. Every ordered pair of results must share no mutable object and survive exhaustive mutation of the other. Pairs of calls run in two threads under every schedule with at most one preemption at any pydbml '
-             'line event (warm, and cold-start for some pairs) and must give their isolated outcomes; the thorough tier adds every two-preemption schedule at call granularity, three-thread schedules and cold-start schedules preempted at every write to a shared grammar element. Every call is repeated in a fresh interpreter; a free-running multi-thread pass is supplementary.',
+             'line event (warm, and cold-start for some pairs) and must give their isolated outcomes; cold-start pairs are also preempted at the writes to shared grammar elements (every 8th write of two pairs in the quick tier, every write of three pairs in the thorough tier); the thorough tier adds every two-preemption schedule at call granularity and three-thread schedules. Every call is repeated in a fresh interpreter; a free-running multi-thread pass is supplementary.',
         note='Scheduling points are line events in <repo>/pydbml frames; pyparsing frames run untraced between them. The shared-state snapshot (verif/heap.py) excludes display-name caches and is reported as evidence; the verdict is outcome equality, object sharing and the census.',
         design='DESIGN.md §3 C11'),
     'C12': dict(
@@ -111,14 +111,14 @@ CHECKS = {
     'C15': dict(
         level='model_checking', technique='two-configuration traversal of the C01 derivation BFS (option on / off), exhaustive property placement product x 5 styles, all flag-flip sequences up to length 3',
         text='Every property-free BFS state and a pack of every C01 product is parsed under both option values and must differ in the flag only; every combination of 0-2 table-body properties at every position and 0-2 column properties '
-             'among 0-2 ordinary settings, with bare / quoted / keyword-like keys and plain / quoted / padded / empty / multi-line values, written in five styles incl. both multi-line layouts, must be stored exactly and in order with the option on, '
-             'round-trip through .dbml (single-line values), and be a syntax error with the option off; every sequence of up to three flag assignments from both initial values on parsed and API-built databases must switch rendering accordingly.',
-        note='Keys spelled note / indexes are that element, not a property. Multi-line values are checked for exact storage only (round trip: recorded finding C02-multiline-settings-text).',
+             'among 0-2 ordinary settings, with bare / quoted / keyword-prefixed / keyword-spelled / non-ASCII keys and plain / quoted / padded / empty / multi-line values, written in five styles incl. both multi-line layouts, must be stored exactly and in order with the option on, '
+             'round-trip through .dbml (single-line values), and be a syntax error with the option off; every sequence of up to three flag assignments from both initial values on parsed and API-built databases must switch rendering accordingly; the option is passed through every source route that takes it (str, Path, open file, PyDBML.parse, instance.parse) with the value on / off / not given.',
+        note='Keys spelled like a setting keyword are written quoted by the harness (unquoted they are that setting). Multi-line values are checked for exact storage only (round trip: recorded finding C02-multiline-settings-text).',
         design='DESIGN.md §3 C15'),
     'C16': dict(
         level='model_checking', technique='configuration product x routes x attach/detach histories with tagged custom renderers; exactly-once containment on every C01 BFS state; exhaustive render-call sequences with a public-model snapshot after every call',
-        text='4x4 renderer configurations on four configuration routes, each with add/delete/re-add histories of every top-level element kind and its columns, decide which class rendered each text; on every well-formed '
-             'state of the C01 derivation BFS every element text must occur exactly once, at an element boundary, in the database text; every sequence of render calls up to the bound (23 calls, incl. the join table of a <> reference) '
+        text='4x4 renderer configurations on six configuration routes (Database(), PyDBML(str / Path / open file), PyDBML.parse, instance.parse), each with add/delete/re-add histories of every top-level element kind and its columns, decide which class rendered each text; on every well-formed '
+             'state of the C01 derivation BFS and on every combination of up to 2 (quick) / 3 of 13 degenerate-content tweaks of a full model every element text must occur exactly once, at an element boundary, in the database text; every sequence of render calls up to the bound (23 calls, incl. the join table of a <> reference) '
              'must leave the public model snapshot unchanged and return what the call returns when evaluated first (also on a database with an inline composite reference, whose DBML raises). Routing is also checked on a database without tables, after deleting through an equal object of another database, and exactly-once after a referenced table was deleted.',
         note='Custom renderers are BaseRenderer subclasses with their own handler dict. The purity snapshot is the public model (content, order, identity per container slot, back-pointers); private attributes are not part of it.',
         design='DESIGN.md §3 C16'),
@@ -127,13 +127,13 @@ CHECKS = {
         text='Histories over {unset a required attribute, restore it, detach / re-attach table and enum} are executed on real objects; in every state the .sql of every element and container must raise '
              'AttributeMissingError exactly while something it renders lacks a named attribute. Every reference over two attached tables and an unattached column (sides 1-2, four kinds, inline or not, '
              'attached or not) is classified consistent / detached / mixed / composite-inline and the predicted exception class is required for .sql, .dbml, .table1, .table2; histories that move or detach '
-             'a column after the reference was looked at, and attach/detach histories for get_refs, complete it.',
+             'a column after the reference was looked at, and attach/detach histories for get_refs (plain, abstract and aliased tables; the join table of a <> reference), complete it.',
         note='Only the attributes the statement names are asserted. Where detached and mixed coincide either error is accepted. A detached table\'s own .sql (UnknownDatabaseError, pinned by the tests) is not asserted.',
         design='DESIGN.md §3 C17'),
     'C18': dict(
         level='exploration', technique='exhaustive enumeration of all labelled DAGs (n<=4/5) x edge kinds, SQL read back by independent DDL reader',
         text='Every labelled DAG of inline references on up to 4 (quick) / 5 (thorough) tables with every assignment of kinds >,<,- is built, '
-             'rendered and read back; the order, permutation, clause-placement and determinism clauses are decided for each, including a render / make-one-reference-standalone / render history against a fresh build, a two-schema same-name variant and a column-less table. Small-scope exhaustive: the ordering '
+             'rendered and read back; the order, permutation, clause-placement and determinism clauses are decided for each, including render / edit / render histories (one reference made standalone; every sequence of up to two edits of the inline flag or kind of one reference on models with up to 3 tables) against a fresh build, a two-schema same-name variant, a column-less table and a model with an enum. Small-scope exhaustive: the ordering '
              'rule is a function of the reference graph only, and every graph shape up to the bound is covered.',
         note='Trusts verif/ddl.py to recognise CREATE TABLE / FOREIGN KEY. Databases are API-built. The pinned count heuristic is a recorded known finding '
              '(known_findings.json C18-count-heuristic); any order other than the one that heuristic predicts is reported.',
